@@ -446,6 +446,20 @@ func oneCase(c *fw.Ctx, r *rng.R, dir, id, class, text string, cs *gen.Case) boo
 		c.Count("library_parse_panicked_skipped", 1)
 		return true
 	}
+	// the files of the file channel written the way other programs write them: an amount beyond
+	// 10^21 in exponent notation (what JavaScript prints) or with a decimal point, a byte order
+	// mark in front of the JSON. The CLI may refuse such a file; it must not answer as if the file
+	// held something else.
+	notation := ""
+	if r.Chance(1, 5) {
+		notation = r.Pick("exponent", "decimal-point", "bom-variables", "bom-balances")
+		if cs.Balances["zz:big"] == nil {
+			cs.Balances["zz:big"] = map[string]*big.Int{}
+		}
+		cs.Balances["zz:big"]["USD"], _ = new(big.Int).SetString("1000000000000000000000", 10)
+		class += "+" + notation
+		c.Count("file_channel_in_another_notation", 1)
+	}
 	var libOut *real.Outcome
 	parseFailed := len(po.Errors) > 0
 	if !parseFailed {
@@ -469,8 +483,19 @@ func oneCase(c *fw.Ctx, r *rng.R, dir, id, class, text string, cs *gen.Case) boo
 		c.Count("inputs_with_other_json_escapes", 1)
 	}
 	vf, bf, mf := filepath.Join(dir, "v.json"), filepath.Join(dir, "b.json"), filepath.Join(dir, "m.json")
+	bjs := balancesJSON(cs)
+	switch notation {
+	case "exponent":
+		bjs = strings.Replace(bjs, "1000000000000000000000", "1e+21", 1)
+	case "decimal-point":
+		bjs = strings.Replace(bjs, "1000000000000000000000", "1000000000000000000000.0", 1)
+	case "bom-variables":
+		vjs = "\ufeff" + vjs
+	case "bom-balances":
+		bjs = "\ufeff" + bjs
+	}
 	os.WriteFile(vf, []byte(vjs), 0o644)
-	os.WriteFile(bf, []byte(balancesJSON(cs)), 0o644)
+	os.WriteFile(bf, []byte(bjs), 0o644)
 	os.WriteFile(mf, []byte(mjs), 0o644)
 	rf := filepath.Join(dir, "raw.json")
 	os.WriteFile(rf, []byte(raw), 0o644)
@@ -499,6 +524,13 @@ func oneCase(c *fw.Ctx, r *rng.R, dir, id, class, text string, cs *gen.Case) boo
 		c.Eval()
 		c.Count("channel_"+ch.name, 1)
 		ex := map[string]any{"command": "run", "channel": ch.name, "exit": pr.code, "stdout": pr.stdout, "stderr": pr.stderr}
+		if ch.name == "files" && notation != "" {
+			ex["file_notation"] = notation
+			if pr.code != 0 {
+				c.Count("files_in_another_notation_refused", 1)
+				continue
+			}
+		}
 		switch {
 		case parseFailed:
 			if pr.code == 0 {
